@@ -230,6 +230,13 @@ func makeScenario(rng *rand.Rand, idx int, thorough bool) *scenario {
 		if i%3 == 1 {
 			name = fmt.Sprintf("sub/f%02d.bin", i)
 		}
+		if (i+idx)%4 == 2 {
+			// names a reader must take literally on this platform: backslash, glob and shell characters,
+			// spaces, upper case, trailing dot, deep directories (gopar's PAR2 writer refuses non-ASCII names)
+			odd := []string{"report\\final%02d.txt", "with space %02d.dat", "-dash%02d.dat", "a[%02d].dat", "x*y?%02d.dat",
+				"dot.%02d.", "UPPER%02d.DAT", "sub/deep/er/f%02d.bin", "%%41-%02d.txt", "semi;colon&%02d", "back\\sub\\f%02d", "a'b\"c%02d"}
+			name = fmt.Sprintf(odd[rng.Intn(len(odd))], i)
+		}
 		n := pickSize(rng, sc.s, big)
 		if sc.s >= 65536 {
 			n = []int{1, sc.s - 1, sc.s, sc.s + 1, 2*sc.s + 5, 70000}[rng.Intn(6)]
@@ -408,6 +415,20 @@ func runScenario(c *common, lg *tracelog.Log, rng *rand.Rand, idx int, sc *scena
 	}
 	if err := a.materialise(dir, disk, vols); err != nil {
 		return err
+	}
+	// recovery blocks may be stored more than once beside the index file (a volume copied under another
+	// name, a copy of the index): the set of DISTINCT intact blocks is what counts
+	if len(vols) > 0 && rng.Intn(3) == 0 {
+		v := vols[rng.Intn(len(vols))]
+		if err := sandbox.WriteFile(filepath.Join(dir, "arch.dup"+fmt.Sprint(rng.Intn(9))+".par2"), a.VolB[v]); err != nil {
+			return err
+		}
+		dmg = append(dmg, "duplicate of volume "+v+" under another name")
+		if rng.Intn(2) == 0 {
+			if err := sandbox.WriteFile(filepath.Join(dir, "arch.idxcopy.par2"), a.IndexB); err != nil {
+				return err
+			}
+		}
 	}
 	exps := []int{}
 	for _, v := range vols {
